@@ -119,6 +119,73 @@ func (c *Ctx) ruleConvKind(rule string) {
 			}
 		}
 	}
+	// unsigned sources above MaxInt64 wrap around when converted to a signed integer
+	for _, fn := range c.M.SortedFuncs(scope) {
+		cnt := 0
+		for _, b := range fn.Blocks {
+			for _, in := range b.Instrs {
+				call, ok := in.(*ssa.Call)
+				if !ok || reflectValueMethod(call) != "Convert" || len(call.Call.Args) != 2 {
+					continue
+				}
+				tt := core.ReflectTypeOfStatic(call.Call.Args[1])
+				if tt == nil {
+					continue
+				}
+				mayBeSigned := false
+				for _, to := range scalarKinds(tt, kinds) {
+					if kinds.isInt(to) && !strings.HasPrefix(kinds.byValue[to], "Uint") {
+						mayBeSigned = true
+					}
+				}
+				if !mayBeSigned {
+					continue
+				}
+				cnt++
+				path := c.reflPath(call.Call.Args[0], 0)
+				k := key(rule, c.M.Key(fn), sprintf("Convert #%d of %s to %s: unsigned values above MaxInt64 excluded", cnt, c.stable(fn, path), typeStr(tt)))
+				est := func(cond core.Cond) bool {
+					// CanUint() found false, or Uint() compared with a constant >= 2^63-1 on the not-greater side
+					if cc, ok := cond.V.(*ssa.Call); ok && reflectValueMethod(cc) == "CanUint" && c.reflPath(cc.Call.Args[0], 0) == path {
+						return !cond.True
+					}
+					bo, ok := cond.V.(*ssa.BinOp)
+					if !ok {
+						return false
+					}
+					uc, ok := bo.X.(*ssa.Call)
+					if !ok || reflectValueMethod(uc) != "Uint" || c.reflPath(uc.Call.Args[0], 0) != path {
+						return false
+					}
+					cst, ok := bo.Y.(*ssa.Const)
+					if !ok || cst.Value == nil || constant.Compare(cst.Value, token.LSS, constant.MakeInt64(1<<62)) {
+						return false
+					}
+					if constant.Compare(cst.Value, token.GTR, constant.MakeUint64(1<<63-1)) {
+						return false
+					}
+					switch bo.Op {
+					case token.GTR:
+						return !cond.True
+					case token.LEQ:
+						return cond.True
+					}
+					return false
+				}
+				// only the paths on which an unsigned kind was admitted at all need it; a Kind()-based exclusion of the
+				// unsigned kinds counts as well
+				fa := kindFact{accept: func(kv int64, eq bool) bool {
+					return eq && !strings.HasPrefix(kinds.byValue[kv], "Uint")
+				}}
+				if core.MustHold(fn, est)[b] || core.MustHold(fn, c.kindEst(path, fa, 0))[b] {
+					c.R.Ok(rule, k, c.M.InstrPos(call), "conversion to a signed integer", "on every path the value was found not to be unsigned, or its Uint() not above MaxInt64")
+				} else {
+					c.R.Bad(rule, k, c.M.InstrPos(call), "an unsigned value above MaxInt64 is converted to a signed integer",
+						"reflect's Convert wraps around: uint64(MaxUint64) becomes -1 and is then checked against the bounds / enum members as -1 - Validate and Serialize accept a value that Unserialize rejects")
+				}
+			}
+		}
+	}
 	c.R.Note("%s: %d conversions to a statically known scalar type in %d functions reachable from Validate / Serialize", rule, n, len(scope))
 }
 
